@@ -37,6 +37,17 @@ checks.update({
          "For each baseline command scenario every step index of its canonical schedule is used once as the instant of a peer FIN, once of a RST and once of a write failure on the command's connection (exhaustive over single fault points of those baselines); on top, seeded runs with 0-7 queued/outstanding commands, equal timeouts expiring together, clock jitter and all strategies. A panic anywhere is a violation (recorded instead of killing the process); after faults stop and the clock has passed every timeout, every SendActiveMessage call - including a probe call for an unknown key that detects a wedged session manager - must have returned.",
          "nothing is demanded about which error a caller gets; back-pressure from a stalled TCP peer is not modelled"),
 })
+checks.update({
+ "C15": ("exploration", "5/C15", "deterministic simulation of the attachment server: seeded file sets/chunkings/orders/resends x stream segmentation x schedules, oracle = reference interval model over the delivery history",
+         "The real attachment server runs on the simulated socket for all five dialects (incl. the length-prefixed HLJ data header); names and alarm IDs over arbitrary bytes incl. the marker 30316364, file contents containing the marker, permuted and re-sent data packets, control frames and data in one read, headers split across reads. A file may be reported complete (stage event or 0x9212 result 0) only if every byte of it had been delivered before, and its StreamBody must then equal the original bytes; each delivered control frame gets exactly one reply of the prescribed type echoing serial/id or naming the file; the session must not abort on well-formed input.",
+         "files up to a few KiB (quick) / ~100 KiB (thorough); names without NUL and within the data header's 50 bytes"),
+ "C16": ("exploration", "5/C16", "deterministic simulation of the 0x1212 -> 0x9212 conversation with withheld data packets; oracle = complement-of-intervals reference, 0x9212 parsed by the reference codec",
+         "Socket-driven half of the property: disjoint data packets with a plan-chosen subset withheld (gaps at start/middle/end, adjacent packets, one-byte gaps, up to ~300 packets), 0x1212, resupply in one or two rounds, 0x1212 again, under every segmentation; each 0x9212 must say complete with no ranges iff the packets delivered before that 0x1212 cover the file, else retransmit with exactly the maximal missing ranges ascending. The pure StatisticalMissSegments function is reached only through this path; its exhaustive enumeration is not this family's business and is not claimed.",
+         "partial claim (DESIGN.md section 0): the for-all-interval-sets quantifier of the pure function is sampled through the socket path only"),
+ "C19": ("exploration", "5/C19", "deterministic simulation with a simulated file system: default file handler on simfs, hostile announced names, oracle = every recorded effect's resolved path",
+         "The attachment server's default FileEventer runs against simfs (in-memory tree with Linux path resolution), pre-populated with files and directories outside the terminals' directories; names with .., absolute paths, separators, NUL, names of existing outside files, several terminals per run, closes at arbitrary points; every create/write/mkdir the server performs is recorded with its resolved absolute path and must lie inside <cwd>/<phone>/ (or be the server's own file.log); outside files must be unchanged.",
+         "simfs has no symlinks; phone numbers are non-empty"),
+})
 pending = {}
 all_ids = ["C%02d" % i for i in range(1, 21)]
 man = {
